@@ -118,6 +118,9 @@ func c05Run(j vs.Job) *vs.JobResult {
 			v := c05Idle(o, oc, ic)
 			r.Execs++
 			r.Nontrivial++
+			if len(r.Samples) < 3 && r.Execs%97 == 1 {
+				r.Samples = append(r.Samples, fmt.Sprintf("options %+v %s: output reads %q, input reads %q", o, desc, oc, ic))
+			}
 			if v != "" {
 				r.Violate("c05:idle:"+firstWords(v, 4), fmt.Sprintf("options %+v, %s: %s", o, desc, v), nil)
 				return len(r.Violations) < 5
@@ -176,6 +179,9 @@ func c05Run(j vs.Job) *vs.JobResult {
 			_ = w
 			r.Execs++
 			r.Nontrivial++
+			if len(r.Samples) < 2 {
+				r.Samples = append(r.Samples, "history "+wp.String())
+			}
 			all := append([]*worldResult{res}, res.Next...)
 			v := ""
 			for k, x := range all {
@@ -239,6 +245,9 @@ func c05Exit(r *vs.JobResult) {
 				} else if err != nil {
 					r.ToolErr = "cannot run the real trzsz binary: " + err.Error()
 					return
+				}
+				if t == 0 && len(r.Samples) < 2 {
+					r.Samples = append(r.Samples, fmt.Sprintf("trzsz /bin/sh -c %q -> exit %d, output %q", sh, got, clipStr(string(out), 60)))
 				}
 				if got != code {
 					r.Violate(fmt.Sprintf("c05:exit-status:%d", code), fmt.Sprintf("trzsz sh -c %q exited with %d, the command with %d", sh, got, code), nil)
